@@ -156,6 +156,8 @@ def make_views(b):
         v.svd_text = call("get_csr_svd", export.get_csr_svd, soc, description="c14")
         v.memh_text = call("get_mem_header", export.get_mem_header, soc.mem_regions)
         v.soch_text = call("get_soc_header", export.get_soc_header, soc.constants)
+        v.ld_text = call("get_linker_regions", export.get_linker_regions, soc.mem_regions)
+        v.memx_text = call("get_memory_x", export.get_memory_x, soc)
     try:
         v.js = json.loads(v.json_text)
         v.csv = P.parse_csv(v.csv_text)
@@ -164,6 +166,8 @@ def make_views(b):
         v.svd = P.parse_svd(v.svd_text)
         v.memh, v.memlist = P.parse_mem_header(v.memh_text)
         v.soch = P.parse_soc_header(v.soch_text)
+        v.ld = P.parse_linker_regions(v.ld_text)
+        v.memx = P.parse_linker_regions(v.memx_text)
     except (P.ParseError, ValueError, SyntaxError) as e:
         raise ExportFailure(f"exported text is outside the format its consumers expect: {type(e).__name__}: {e}")
     return v
@@ -281,7 +285,8 @@ def static_checks(b, v):
               csv={n: (m["base"], m["size"]) for n, m in csv["memories"].items()},
               mem_h={n: (m["base"], m["size"]) for n, m in v.memh.items()},
               mem_h_list={n: (m["base"], m["size"]) for n, m in v.memlist.items()},
-              svd={n: (m["base"], m["size"]) for n, m in svd["memories"].items()})
+              svd={n: (m["base"], m["size"]) for n, m in svd["memories"].items()},
+              regions_ld=dict(v.ld), memory_x=dict(v.memx))
     for fmt, d in fm.items():
         if d != truth:
             bad("fmt.mem", f"{fmt} memory regions {d} differ from soc.bus.regions {truth}")
@@ -881,6 +886,7 @@ def run_soc(cfg, seed):
     failed_regs = set()
     cand = []            # (kind, msg, detail, test)
     executed = []
+    sample_box = [None]
     evaluations = 0
     targets = set()
     masked = 0
@@ -892,9 +898,14 @@ def run_soc(cfg, seed):
             continue
         res = fb.run(t.script)
         fails = t.check(res)
+        if sample_box[0] is None and t.tid.startswith("w0:") and t.nacc >= 4 and not fails:
+            # one explored case written out: the accesses of a multi-word register test and what the SoC answered
+            sample_box[0] = dict(test=t.tid, script=[[hexs(x) if not isinstance(x, tuple) else ".".join(map(str, x)) for x in st] for st in t.script],
+                                 bus_results=[[r[0], hexs(r[1])] for r in res["reads"]], final=[hexs(x) for x in res["gets"]])
         executed.append(t.tid)
         evaluations += t.nacc
-        targets.add(t.target)
+        if t.nacc:
+            targets.add(t.target)
         cover["tests"] += 1
         if fails:
             failed_regs.add(t.target)
@@ -903,18 +914,32 @@ def run_soc(cfg, seed):
         if fb.dead:
             dead = True
             break
+    seen = set()
     for t in tests:
         c = t.tid.split(":")[0]
-        if c in ("w0",):
+        if (c, t.target) in seen:
+            continue
+        seen.add((c, t.target))
+        if c in ("w0", "s") and ("w0", t.target) not in seen - {(c, t.target)} and ("s", t.target) not in seen - {(c, t.target)}:
             cover["regs"] += 1
-            r = b.regs[t.target]
             cover["multiword"] += int(len(v.wordmaps[t.target]["json"]) > 1)
-            cover["atomic"] += int(r.atomic)
+            cover["atomic"] += int(b.regs[t.target].atomic)
         cover["status_driven"] += int(c == "s" and t.target in b.drive)
         cover["fields"] += int(c in ("fw", "fr"))
         cover["csrmems"] += int(c == "cm")
         cover["busmems"] += int(c == "bm")
         cover["irqs"] += int(c == "irq")
+    # anti-vacuity: every menu must really have produced the item classes it was written for
+    M = b.menu
+    want = dict(regs=len(b.regs), csrmems=len(b.csrmems), busmems=len(b.soc.bus.regions),
+                irqs=sum(1 for n, _, _, _, irq in M["periphs"] if irq is not None) + int(M["timer_irq"]),
+                atomic=sum(1 for _, items, *_ in M["periphs"] for it in items if it[0] == "sta" and it[2] > b.cdw),
+                status_driven=sum(1 for _, items, *_ in M["periphs"] for it in items if it[0] in ("ro", "rof")))
+    for k, n in want.items():
+        if cover[k] < n or (k == "regs" and n < 4):
+            raise MachineryError(f"{name}: vacuous run, {k}: {cover[k]} tested, {n} expected ({cover})")
+    if sum(1 for _, items, *_ in M["periphs"] for it in items if it[0] in ("stf", "rof")) and not cover["fields"]:
+        raise MachineryError(f"{name}: vacuous run, no field test generated")
     # classification -> rules; one violation per rule and configuration (the first), the rest is counted
     byrule = {}
     any_addr = any(k == "addr" and not t.disputed for k, _, _, t in cand)
@@ -954,10 +979,7 @@ def run_soc(cfg, seed):
         if not any(x["rule"] == s["rule"] for x in violations):
             n = sum(1 for x in static if x["rule"] == s["rule"])
             violations.append(dict(rule=s["rule"], msg=s["msg"] + (f" [+{n - 1} more]" if n > 1 else ""), detail=dict(s["detail"], static=True), trace=None))
-    sample = None
-    if tests:
-        t = tests[0]
-        sample = dict(test=t.tid, script=[list(map(str, s)) for s in t.script][:12])
+    sample = sample_box[0]
     return dict(cfg=name, cfg_args=list(cfg[1:]), exhaustive=not dead, violations=violations, evaluations=evaluations,
                 distinct=len(targets), conformed=fb.conformed, cycles=fb.ncyc, masked_tests=masked, cover=cover, sample=sample)
 
@@ -1010,8 +1032,9 @@ def image_cases(dw):
 
 
 def content_bytes(n, content, salt=0):
+    """position-unique, never zero (zero is what padding looks like)"""
     if content == 0:
-        return bytes((0x31 + 0x17 * i + 0x55 * salt) & 0xFF for i in range(n))
+        return bytes((0x31 + 0x17 * i + 0x55 * salt) % 251 + 1 for i in range(n))
     return bytes((0xFE - 0x0B * i) & 0xFF for i in range(n))
 
 
@@ -1066,7 +1089,9 @@ def run_image_case(dw, endian, case, tmp):
             if got != byte:
                 return ncmp, dict(kind="byte", msg=f"get_mem_data(data_width={dw}, endianness={endian}, offset={offset:#x}) form={form} lengths={n}: byte {k} of "
                                   f"{os.path.basename(fn)} ({byte:#04x}) belongs at address {base + k:#x}; a {dw}-bit {endian}-endian CPU reads "
-                                  f"{'nothing (image too short)' if got is None else hex(got)} there; words={[hex(w) for w in words[:6]]}"), False
+                                  f"{'nothing (image too short)' if got is None else hex(got)} there; words={[hex(w) for w in words[:6]]}"
+                                  + (" (the layout is right for a 32-bit big-endian master behind LiteX's lane-based width converters - see the "
+                                     "ROM end-to-end test - and wrong for a CPU whose own data bus is that wide)" if endian == "big" and dw > 32 else "")), False
     for w in words:
         if not 0 <= w < (1 << dw):
             return ncmp, dict(kind="range", msg=f"get_mem_data returns word {w:#x} wider than data_width={dw}"), False
@@ -1082,7 +1107,14 @@ def run_img(cfg, seed):
     evaluations = 0
     refused = 0
     fails = []
+    sample = None
     with tempfile.TemporaryDirectory(prefix="c14img") as tmp:
+        from litex.soc.integration.common import get_mem_data
+        fn = os.path.join(tmp, "s.bin")
+        open(fn, "wb").write(content_bytes(11, 0))
+        words = get_mem_data(fn, data_width=dw, endianness=endian, offset=dw // 8)
+        sample = dict(case=["file", 11, 0, dw // 8, None], file_bytes=[hex(x) for x in content_bytes(11, 0)], words=[hex(w) for w in words],
+                      cpu_reads=[hexs(cpu_read_byte(words, dw // 8, endian, a)) for a in range(11)])
         for case in cases:
             n, f, ref = run_image_case(dw, endian, case, tmp)
             evaluations += n
@@ -1098,12 +1130,40 @@ def run_img(cfg, seed):
                                detail=dict(case=list(case), dw=dw, endian=endian, failing_cases=len(fails)), trace=None))
     return dict(cfg=name, cfg_args=list(cfg[1:]), exhaustive=True, violations=violations, evaluations=evaluations,
                 distinct=len(cases) - refused, cover=dict(cases=len(cases), refused=refused, failing=len(fails)),
-                sample=dict(case=list(cases[0])))
+                sample=sample)
 
 
 # ------------------------------------------------------------------------------------------------------------------
 # module API
 # ------------------------------------------------------------------------------------------------------------------
+def extra_coverage(results):
+    """Measured totals for the evidence file."""
+    socs = [r for r in results if str(r.get("cfg", "")).startswith("soc:")]
+    imgs = [r for r in results if str(r.get("cfg", "")).startswith("img:")]
+    items = {}
+    for r in socs:
+        for k, n in (r.get("cover") or {}).items():
+            items[k] = items.get(k, 0) + n
+    dims = {}
+    for r in socs:
+        a = r.get("cfg_args") or []
+        if len(a) == 10:
+            for k, x in zip(("std", "bdw", "ic", "cdw", "paging", "ordering", "aw", "base", "menu"), a[1:]):
+                dims.setdefault(k, set()).add(x)
+    prod = 1
+    for x in dims.values():
+        prod *= len(x)
+    return dict(soc_configurations=len(socs), image_configurations=len(imgs),
+                product_dimensions={k: sorted(x, key=str) for k, x in dims.items()},
+                full_product=bool(socs) and prod == len(socs),
+                simulated_cycles=sum(int(r.get("cycles", 0) or 0) for r in socs),
+                traces_validated_against_impl=sum(int(r.get("conformed", 0) or 0) for r in socs),
+                items_checked=items,
+                image_cases=sum((r.get("cover") or {}).get("cases", 0) for r in imgs),
+                masked_tests=sum(int(r.get("masked_tests", 0) or 0) for r in socs),
+                violations_confirmed_on_stock_simulator=sum(1 for r in socs for v in r.get("violations", []) if (v.get("replayed") or {}).get("reproduced")))
+
+
 def run_config(cfg, seed, tier):
     cfg = tuple(cfg)
     if cfg[1] == "img":
